@@ -54,6 +54,15 @@ def profile(draw, n_min=2, n_max=5, max_ballots=60):
     ballots = list(draw(st.permutations(ballots))) if len(ballots) <= 12 else ballots
     writeins = {str(i): list(w) for i, (_, w) in enumerate(ballots) if w}
     ballots = [b for b, _ in ballots]
+    # the records may reach the generator through its own reader of the RAIRE file format (then a ballot may also name a
+    # candidate again further down, which means nothing)
+    via_file = draw(st.integers(0, 3)) == 0
+    repeats = {}
+    if via_file:
+        for i, b in enumerate(ballots):
+            if b and draw(st.integers(0, 7)) == 0:
+                j = draw(st.integers(0, len(b) - 1))
+                repeats[str(i)] = [j, draw(st.integers(0, j))]   # after position j, candidate b[k] (k <= j) is named again
     real = [b for b in ballots if b is not None]
     ws = sorted(irv_winners(cands, real)) if real else list(cands)
     r = draw(st.integers(0, 9))
@@ -70,7 +79,8 @@ def profile(draw, n_min=2, n_max=5, max_ballots=60):
     extra = draw(st.sampled_from([0, 0, 0, 1, 3, 10, 40]))
     return {"cands": cands, "ballots": ballots, "winner": winner, "order_hint": order,
             "asn": draw(st.sampled_from(["bp_estimate", "bp_estimate", "cp_estimate", "cp_estimate"] + sorted(CUSTOM_DIFFICULTY))), "tot_extra": extra,
-            "contest_name": draw(st.sampled_from(["c", "c", "339", 1])), "writeins": writeins}
+            "contest_name": draw(st.sampled_from(["c", "c", "339", 1])), "writeins": writeins,
+            "via_file": via_file, "repeats": repeats}
 
 
 # difficulty functions: the two shipped ones, and others that decrease as the margin grows (the search is generic in it:
@@ -89,9 +99,51 @@ def difficulty(name):
     return CUSTOM_DIFFICULTY[name] if name in CUSTOM_DIFFICULTY else getattr(sample_estimator, name)
 
 
+def raire_file_lines(prof, contest):
+    """the profile as lines of a RAIRE file (one contest)"""
+    wi = prof.get("writeins") or {}
+    rep = prof.get("repeats") or {}
+    lines = ["1", ",".join(["Contest", str(contest), str(len(prof["cands"]))] + list(prof["cands"]) + ["winner", str(prof["winner"])])]
+    for i, b in enumerate(prof["ballots"]):
+        if b is None:
+            continue
+        before = wi.get(str(i), [])
+        toks = []
+        for j, c in enumerate(b):
+            toks += ["WI%d" % j] * before.count(j)
+            toks.append(c)
+            if str(i) in rep and rep[str(i)][0] == j:
+                toks.append(b[rep[str(i)][1]])
+        lines.append(",".join([str(contest), str(i)] + toks))
+    return lines
+
+
 def raire_cvrs(prof, contest=None):
-    """the generator-side CVR dict: {ballot id: {contest: {cand: 0-based rank}}}"""
+    """the generator-side CVR dict: {ballot id: {contest: {cand: 0-based rank}}}; through the generator's own file reader
+    when the profile says so"""
     contest = prof.get("contest_name", "c") if contest is None else contest
+    if prof.get("via_file"):
+        import os
+        import shutil
+        import tempfile
+
+        from harness.boot import VERIF
+        from shangrla.raire.raire_utils import load_contests_from_raire
+
+        os.makedirs(os.path.join(VERIF, ".work"), exist_ok=True)
+        d = tempfile.mkdtemp(prefix="irv_", dir=os.path.join(VERIF, ".work"))
+        try:
+            p = os.path.join(d, "p.raire")
+            with open(p, "w") as fh:
+                fh.write("\n".join(raire_file_lines(prof, contest)) + "\n")
+            _, got = load_contests_from_raire(p)
+        finally:
+            shutil.rmtree(d, ignore_errors=True)
+        # (records lacking the contest are not in the file; the in-memory form has them as empty records)
+        cvrs = {}
+        for i, b in enumerate(prof["ballots"]):
+            cvrs[str(i)] = {} if b is None else {contest: got.get(str(i), {}).get(str(contest), {})}
+        return cvrs
     cvrs = {}
     wi = prof.get("writeins") or {}
     for i, b in enumerate(prof["ballots"]):
